@@ -215,6 +215,7 @@ def run(ctx):
         "property's domain n >= 5); prefixes shorter than 5 points pin nothing"]
     ctx.mc("LRefine", "MC_LRefine", need_actions=("LStep", "LEnd", "DStep", "DEnd"))
     ctx.mc("LRefine", "MC_LRefine_unguarded", expect="<temporal>")
+    ctx.mc("LRefine", "MC_LRefine_prevguard", expect="<temporal>")     # a 2-cycle guard admits a cycle of length 3
     items = inputs(ctx)
     rec = par.pmap(_record, items)
     cases = [c for c, _ in rec]
